@@ -7,8 +7,11 @@
 -/
 import ModVerif.Model.Semver
 import ModVerif.Proofs.SemverOrder
+import ModVerif.Proofs.SemverCanonical
+import ModVerif.Proofs.SemverSort
+import ModVerif.Proofs.SemverNumeric
 namespace ModVerif.Props.C04
-open ModVerif ModVerif.Semver
+open ModVerif ModVerif.Semver ModVerif.SemverSpec
 
 /-- **Order characterisation.** `Compare v w` is the comparison of the keys of `v` and `w` in a strict
 total order on keys: invalid versions have key `none` (lowest, all equal); a valid version has key
@@ -19,6 +22,16 @@ alphanumeric ones, numeric by (length, bytes), alphanumeric bytewise.  (SemVer 2
 theorem compare_eq_key (v w : Bytes) :
     Semver.compare v w = optLowCmp keyCmp (vkey v) (vkey w) :=
   Semver.compare_eq_key v w
+
+/-- **Numbers of any length are compared numerically.** On the number parts the grammar allows
+(decimal, no leading zeros) the (length, bytes) comparison used by `compareInt` is the comparison of the
+values, with no bound on the number of digits. -/
+theorem compareInt_numeric (x y : Bytes) (hx : Num x) (hy : Num y) :
+    compareInt x y = natCmp (decVal x) (decVal y) :=
+  Semver.compareInt_numeric hx hy
+
+example : Num (B "18446744073709551616") ∧ decVal (B "18446744073709551616") = 2^64 := by
+  refine ⟨⟨by decide +kernel, by decide +kernel, by decide +kernel⟩, by decide +kernel⟩
 
 /-- the order on keys is a strict total order -/
 theorem key_order_strict_total : StrictCmp (optLowCmp keyCmp) :=
@@ -82,6 +95,94 @@ theorem compare_invalid_valid (v w : Bytes) (hv : isValid v = false) (hw : isVal
     Semver.compare v w = -1 := by
   unfold isValid at hv hw
   cases h1 : parse v <;> cases h2 : parse w <;> simp_all [Semver.compare]
+
+/-- **Grammar.** A string is a valid version exactly when it matches the documented grammar
+`vMAJOR[.MINOR[.PATCH[-PRERELEASE][+BUILD]]]` (Spec/SemverSpec.lean, written without reference to `parse`). -/
+theorem isValid_iff (v : Bytes) : isValid v = true ↔ Valid v := by
+  rw [valid_iff_decomp]
+  unfold isValid
+  constructor
+  · intro h
+    cases hp : parse v with
+    | none => rw [hp] at h; simp at h
+    | some p => exact ⟨p, parse_decomp hp⟩
+  · rintro ⟨p, hd⟩
+    rw [decomp_parse hd]; rfl
+
+/-- `parse` returns exactly the parts of the documented decomposition (shortened forms filled with "0"). -/
+theorem parse_iff_decomp (v : Bytes) (p : Parsed) : parse v = some p ↔ Decomp v p :=
+  Semver.parse_iff_decomp v p
+
+/-- Every accessor is empty for invalid strings. -/
+theorem accessors_invalid (v : Bytes) (h : isValid v = false) :
+    canonical v = [] ∧ major v = [] ∧ majorMinor v = [] ∧ prerelease v = [] ∧ build v = [] := by
+  unfold isValid at h
+  cases hp : parse v with
+  | none => simp [canonical, major, majorMinor, prerelease, build, hp]
+  | some p => rw [hp] at h; simp at h
+
+/-- Canonical(v) = "v" MAJOR "." MINOR "." PATCH PRERELEASE for valid `v`. -/
+theorem canonical_spec (v : Bytes) (p : Parsed) (h : parse v = some p) :
+    canonical v = 118 :: p.major ++ 46 :: p.minor ++ 46 :: p.patch ++ p.prerelease :=
+  Semver.canonical_spec h
+
+/-- Major(v) = "v" MAJOR; Prerelease and Build return the corresponding parts. -/
+theorem major_prerelease_build_spec (v : Bytes) (p : Parsed) (h : parse v = some p) :
+    major v = 118 :: p.major ∧ prerelease v = p.prerelease ∧ build v = p.build :=
+  ⟨Semver.major_spec h, Semver.prerelease_spec h, Semver.build_spec h⟩
+
+/-- MajorMinor(v) = "v" MAJOR "." MINOR (minor filled with 0 for the shortest form). -/
+theorem majorMinor_spec (v : Bytes) (p : Parsed) (h : parse v = some p) :
+    majorMinor v = 118 :: p.major ++ 46 :: p.minor :=
+  Semver.majorMinor_spec h
+
+/-- module.CanonicalVersion is Canonical, except that it keeps exactly the build suffix "+incompatible". -/
+theorem canonicalVersion_spec (v : Bytes) :
+    canonicalVersion v = if build v = B "+incompatible" then canonical v ++ B "+incompatible" else canonical v := by
+  unfold canonicalVersion; simp
+
+/-- **Compare returns 0 exactly when the canonical forms are identical.** -/
+theorem compare_zero_iff_canonical (v w : Bytes) :
+    Semver.compare v w = 0 ↔ canonical v = canonical w := by
+  rw [compare_eq_zero_iff_key, vkey_eq_iff_canonical]
+
+/-- The canonical form is a fixed point and compares equal to the original. -/
+theorem canonical_idem (v : Bytes) : canonical (canonical v) = canonical v ∧ Semver.compare v (canonical v) = 0 := by
+  cases hp : parse v with
+  | none => simp [canonical_invalid hp, compare_zero_iff_canonical]; decide
+  | some p =>
+    have h2 := canonical_parse hp
+    have e : canonical (canonical v) = canonical v := by
+      rw [Semver.canonical_spec h2, Semver.canonical_spec hp]
+    exact ⟨e, (compare_zero_iff_canonical _ _).2 e.symm⟩
+
+/-- `ByVersion.Less` is a strict total order on all strings: Compare, ties broken bytewise. -/
+theorem less_strict_total : StrictCmp lessCmp ∧ ∀ a b, less a b = true ↔ lessCmp a b = -1 :=
+  ⟨lessCmp_strict, less_iff⟩
+
+/-- the sortedness relation in terms of Compare: `a` may precede `b` iff `a` compares lower, or equal with
+`a ≤ b` as strings -/
+theorem le_spec (a b : Bytes) :
+    Semver.le a b ↔ (Semver.compare a b = -1 ∨ (Semver.compare a b = 0 ∧ bytesLt b a = false)) := by
+  unfold Semver.le less
+  have anti := compare_antisymm a b
+  have r := compare_range a b
+  by_cases h : Semver.compare b a = 0
+  · have h' : Semver.compare a b = 0 := by omega
+    simp [h, h']
+  · have h' : Semver.compare a b ≠ 0 := by omega
+    simp [h, h']
+    omega
+
+/-- **Sorting.** The model's `sort` returns a permutation of its input ordered by Compare then by string,
+and it is the ONLY such list: whatever (unstable) algorithm `sort.Sort` uses, its result is determined. -/
+theorem sort_spec (l : List Bytes) :
+    (Semver.sort l).Perm l ∧ (Semver.sort l).Pairwise Semver.le ∧
+    ∀ l' : List Bytes, l'.Perm l → l'.Pairwise Semver.le → l' = Semver.sort l :=
+  ⟨sort_perm l, sort_pairwise l, fun l' hp hs => sorted_perm_unique l l' hp hs⟩
+
+example : Semver.sort [B "v1.0.0", B "v1", B "bad", B "v1.0.0-rc1"] = [B "bad", B "v1.0.0-rc1", B "v1", B "v1.0.0"] := by
+  decide +kernel
 
 /-- non-vacuity: a 40-digit minor compares numerically above a 39-digit one; a prerelease is below
 its release; numeric identifiers are below alphanumeric ones; invalid is below valid. -/
